@@ -80,6 +80,36 @@ def schema_event(c):
     if p.returncode != 0: raise vlib.ToolError("jschema failed: " + p.stderr[-1500:])
     return p.stdout.strip().splitlines()[-1], raw
 
+SUBSET = {"$schema", "title", "description", "type", "required", "properties", "items", "definitions", "$ref",
+          "allOf", "anyOf", "oneOf", "enum", "format", "minimum", "additionalProperties", "default"}
+
+def outside_subset(schema):
+    """schema keywords the TLA+ semantics (specs/JsonSchema.tla) does not cover, with their JSON paths"""
+    found = []
+    def walk(s, path, in_props):
+        if isinstance(s, dict):
+            for k, v in s.items():
+                if not in_props and k not in SUBSET: found.append((path + "/" + k, k))
+                walk(v, path + "/" + k, (k in ("properties", "definitions")) and not in_props)
+        elif isinstance(s, list):
+            for i, v in enumerate(s): walk(v, path + "/%d" % i, False)
+    walk(schema, "#", False)
+    return found
+
+def strip_outside(s, in_props=False):
+    if isinstance(s, dict):
+        return {k: strip_outside(v, (k in ("properties", "definitions")) and not in_props) for k, v in s.items() if in_props or k in SUBSET}
+    if isinstance(s, list): return [strip_outside(v) for v in s]
+    return s
+
+def python_validate(raw_schema_path, trace_path):
+    code = "import json,sys,jsonschema\nsys.path.insert(0,%r)\n" % os.path.join(vlib.VERIF, "lib")
+    code += "import jvpy\ns=json.load(open(%r))\nv=jsonschema.Draft7Validator(s)\nbad=[]\nfor n,l in enumerate(open(%r)):\n e=json.loads(l)\n if e.get('ev')=='Doc':\n  errs=list(v.iter_errors(jvpy.from_jv(e['d'])))\n  if errs: bad.append([n, errs[0].message[:200], list(errs[0].absolute_schema_path)[-3:]])\nprint(json.dumps(bad[:20])); print(len(bad))\n" % (raw_schema_path, trace_path)
+    p = subprocess.run(["python3-vt", "-c", code], stdout=subprocess.PIPE, stderr=subprocess.PIPE, text=True)
+    if p.returncode != 0: raise vlib.ToolError("python jsonschema failed: " + p.stderr[-800:])
+    lines = p.stdout.strip().splitlines()
+    return json.loads(lines[0]), int(lines[1])
+
 def run_c19(tier, replay=None):
     c = vlib.Check("C19", tier, "model_checking")
     x = exe()
@@ -98,6 +128,25 @@ def run_c19(tier, replay=None):
         for e in vlib.ndjson_read(tr0):
             if e["ev"] == "Doc": f.write(json.dumps(e) + "\n")
     c.sample({"schema_head": sch[:300]})
+    # keywords outside the TLA+ subset (e.g. `pattern`, `maxLength`): TLC cannot judge them, so for exactly those
+    # a standard validator (python jsonschema, Draft 7) judges the same real documents, and TLC judges the rest
+    raw_schema = json.load(open(raw))
+    extra = outside_subset(raw_schema)
+    if extra:
+        c.cov["schema_keywords_outside_tla_subset"] = sorted(set(k for _, k in extra))
+        bad, nbad = python_validate(raw, tr)
+        if nbad:
+            evs = vlib.ndjson_read(tr)
+            rp = c.replay_file("schema_rejects_real_document.ndjson", json.dumps(evs[0]) + "\n" + json.dumps(evs[bad[0][0]]) + "\n")
+            c.violation("schema-keyword", "the generated schema uses %s and rejects %d real serialised registries, e.g. %s at %s" % (sorted(set(k for _, k in extra)), nbad, bad[0][1], bad[0][2]), rp)
+        # let TLC validate everything else: re-transcode the schema without those keywords
+        import sys as _s
+        _s.path.insert(0, os.path.join(vlib.VERIF, "lib"))
+        import jvpy
+        stripped = strip_outside(raw_schema)
+        lines = open(tr).read().splitlines()
+        lines[0] = json.dumps({"ev": "Schema", "s": jvpy.schema_to_jv(stripped)})
+        open(tr, "w").write("\n".join(lines) + "\n")
     ok = validate(c, "C19", tr, "docs")
     c.cov["programs"] = 1
     if tier == "thorough":
